@@ -23,6 +23,7 @@ open ArtVerif
 
 inductive Field where
   | num (t : NumTy) | str
+  | raw   -- a trailing byte string written without terminator
   deriving Repr
 
 inductive KeyKind where
@@ -64,6 +65,9 @@ def parseField (f : Field) (s : String) : Option (Bytes × String × List Int) :
   | .str => do
     let bs ← parseHex s
     pure (bs ++ [0], hexOfBytes bs, bytesOrd bs ++ [-1])
+  | .raw => do
+    let bs ← parseHex s
+    pure (bs, hexOfBytes bs, bytesOrd bs)
 
 def parseKey (kind : KeyKind) (s : String) : Option KeyRep :=
   match kind with
@@ -94,6 +98,7 @@ def decodeFields : List Field → Bytes → List String
     let n := t.width / 8
     numLit t (t.dec (bs.take n)) :: decodeFields rest (bs.drop n)
   | .str :: rest, bs => hexOfBytes bs.dropLast :: decodeFields rest []
+  | .raw :: rest, bs => hexOfBytes bs :: decodeFields rest []
 
 /-- `restoreKey` on a model leaf, rendered as a key literal -/
 def restoreLit (kind : KeyKind) (k : Bytes) : String :=
@@ -320,7 +325,7 @@ def parseKind (args : List String) : Option KeyKind :=
   | ["coll"] => some .coll
   | ["num", t] => (parseNumTy t).map .num
   | ["comp", schema] =>
-    ((schema.splitOn ",").mapM (fun f => if f == "s" then some Field.str else (parseNumTy f).map Field.num)).map .comp
+    ((schema.splitOn ",").mapM (fun f => if f == "s" then some Field.str else if f == "r" then some Field.raw else (parseNumTy f).map Field.num)).map .comp
   | _ => none
 
 def withTree (s : DState) (t : String) (k : Nat → TState → DState × List String) : DState × List String :=
